@@ -1,12 +1,339 @@
 /-
-  C03 — group law and encodings (property theorems; helper lemmas in Buidl.Proofs.ECGroup / Secp256k1).
+  C03 — secp256k1 group law and public-key encodings are correct for all scalars / points.
+  Property theorems only.  Helper lemmas: Buidl.Proofs.ECGroup (generic curves over every prime
+  p > 3), Buidl.Proofs.SecpPrime (primality of P and N, N·G = ∞ by kernel computation),
+  Buidl.Proofs.Secp256k1 (operators of S256Point), Buidl.Proofs.SecpCodec (square root, encodings).
+  The model is Buidl.Model.EC (buidl/pecc.py FieldElement / Point / S256Field / S256Point); the
+  constants P, N, A, B, G are Buidl.Gen.Ecc, re-extracted from /repo on every run.
+
+  "The group law" is Mathlib's `AddCommGroup` on `WeierstrassCurve.Affine.Point` of the curve
+  `SW p a b : y² = x³ + a x + b` over `ZMod p`; `toGroup` maps a model point (coordinates < p, on
+  the curve: `Valid`) to it, injectively.
+
+  Scope notes.
+  * `p ∈ {2, 3}` are excluded (`CurveOK` demands `3 < p`): the short Weierstrass formulas are not a
+    group law there.
+  * Mathlib has no Hasse bound, hence it is not known here that every point of secp256k1 lies in
+    ⟨G⟩.  Statements that need the order of a point are for `InG Q` (`Q = k·G` for some integer
+    `k` — every point the library can produce from a scalar) or `Tors Q` (`Valid` and
+    `Point.__rmul__(N, Q) = ∞`).  Everything else holds for every curve point.
+  * O03c: `FieldElement(0, p) ** (k(p-1))` is 1 in the code (`field_pow` excludes it,
+    `pow_zero_observation` records it).  O03d: 32 zero bytes parse as the point at infinity
+    (`parse_xonly_zero`).
 -/
-import Buidl.Proofs.ECGroup
+import Buidl.Proofs.SecpCodec
 namespace Buidl.Props.C03
 open Buidl Buidl.EC
 
-theorem add_closed (p a b : ℕ) [Fact p.Prime] (hc : CurveOK p a b) {P Q : Pt}
-    (hP : Valid p a b P) (hQ : Valid p a b Q) : Valid p a b (padd p a P Q) :=
-  padd_valid hc hP hQ
+attribute [local irreducible] pmul
+
+/-! ## FieldElement: the field operations of `ZMod p`, for every prime `p` -/
+
+/-- Python's `pow(b, e, m)` -/
+theorem powmod_spec (b e m : ℕ) (hm : 0 < m) : powmod b e m = b ^ e % m := powmod_eq b e m hm
+
+/-- `+`, `-`, `*` are the ring operations of `ZMod p`, results are field elements again -/
+theorem field_ops (p : ℕ) [Fact p.Prime] (a b : ℕ) :
+    ((fadd p a b : ℕ) : ZMod p) = (a : ZMod p) + b ∧ ((fsub p a b : ℕ) : ZMod p) = (a : ZMod p) - b ∧
+    ((fmul p a b : ℕ) : ZMod p) = (a : ZMod p) * b ∧
+    fadd p a b < p ∧ fsub p a b < p ∧ fmul p a b < p :=
+  ⟨fadd_cast p a b, fsub_cast p a b, fmul_cast p a b, fadd_lt p a b, fsub_lt p a b, fmul_lt p a b⟩
+
+/-- `/` is division in the field (Fermat inverse), for every non-zero divisor -/
+theorem field_div (p : ℕ) [Fact p.Prime] (a b : ℕ) (hb : (b : ZMod p) ≠ 0) :
+    ((fdiv p a b : ℕ) : ZMod p) = (a : ZMod p) / (b : ZMod p) ∧ fdiv p a b < p :=
+  ⟨fdiv_cast p a b hb, fdiv_lt p a b⟩
+
+/-- `(a / b) * b = a` on canonical representatives -/
+theorem field_div_mul (p : ℕ) [Fact p.Prime] (a b : ℕ) (ha : a < p) (hb : b < p) (hb0 : b ≠ 0) :
+    fmul p (fdiv p a b) b = a := by
+  have hbz := cast_ne_zero_of_lt p hb hb0
+  apply cast_inj_of_lt p (fmul_lt p _ _) ha
+  rw [fmul_cast, fdiv_cast p a b hbz, div_mul_cancel₀ _ hbz]
+
+/-- `**` is exponentiation in the field (exponent reduced mod p − 1 by the code) -/
+theorem field_pow (p : ℕ) [Fact p.Prime] (x n : ℕ) (h : (x : ZMod p) ≠ 0 ∨ n % (p - 1) ≠ 0 ∨ n = 0) :
+    ((fpow p x n : ℕ) : ZMod p) = (x : ZMod p) ^ n ∧ fpow p x n < p :=
+  ⟨fpow_cast p x n h, fpow_lt p x n⟩
+
+/-- O03c (observation, not a finding): `0 ** (p − 1)` is 1 in the code -/
+theorem pow_zero_observation (p : ℕ) (h2 : 2 ≤ p) : fpow p 0 (p - 1) = 1 :=
+  fpow_zero_card_sub_one p h2
+
+/-! ## Point: a commutative group law on every non-singular curve over every prime `p > 3` -/
+
+section generic
+variable {p a b : ℕ} [Fact p.Prime]
+
+/-- closure: the sum of two curve points is a curve point — the constructor check inside
+    `Point.__add__` never raises (for the order-two doubling this is the repair of F03b) -/
+theorem add_closed (hc : CurveOK p a b) {Q R : Pt} (hQ : Valid p a b Q) (hR : Valid p a b R) :
+    Valid p a b (padd p a Q R) := padd_valid hc hQ hR
+
+theorem add_comm (hc : CurveOK p a b) {Q R : Pt} (hQ : Valid p a b Q) (hR : Valid p a b R) :
+    padd p a Q R = padd p a R Q := padd_comm hc hQ hR
+
+theorem add_assoc (hc : CurveOK p a b) {Q R S : Pt} (hQ : Valid p a b Q) (hR : Valid p a b R)
+    (hS : Valid p a b S) : padd p a (padd p a Q R) S = padd p a Q (padd p a R S) :=
+  padd_assoc hc hQ hR hS
+
+/-- the point at infinity is the identity -/
+theorem add_inf (Q : Pt) : padd p a .inf Q = Q ∧ padd p a Q .inf = Q :=
+  ⟨padd_inf_left Q, padd_inf_right Q⟩
+
+/-- inverses: `Q + (−Q) = ∞`, `−Q` is again on the curve, and it is the only such point -/
+theorem add_neg (hc : CurveOK p a b) {Q : Pt} (hQ : Valid p a b Q) :
+    Valid p a b (pneg p Q) ∧ padd p a Q (pneg p Q) = .inf ∧ padd p a (pneg p Q) Q = .inf ∧
+    ∀ R, Valid p a b R → (padd p a Q R = .inf ↔ R = pneg p Q) :=
+  ⟨pneg_valid hc hQ, padd_pneg hc hQ, pneg_padd hc hQ, fun _ hR => padd_eq_inf_iff hc hQ hR⟩
+
+/-- doubling a point with `y = 0` gives infinity (F03b, repaired) — and only then -/
+theorem add_double_y_zero (x y : ℕ) : padd p a (.aff x y) (.aff x y) = .inf ↔ y = 0 :=
+  padd_self_eq_inf_iff x y
+
+/-- **`Point.__add__` is the group law**: `toGroup` is an injective map from the valid model
+    points into Mathlib's group of curve points, onto (`ofGroup`), and turns `padd` into `+` -/
+theorem add_is_group_law (hc : CurveOK p a b) :
+    (∀ Q R, Valid p a b Q → Valid p a b R →
+      toGroup p a b (padd p a Q R) = toGroup p a b Q + toGroup p a b R) ∧
+    (∀ Q R, Valid p a b Q → Valid p a b R → toGroup p a b Q = toGroup p a b R → Q = R) ∧
+    (∀ g, Valid p a b (ofGroup p a b g) ∧ toGroup p a b (ofGroup p a b g) = g) ∧
+    toGroup p a b .inf = 0 ∧ (∀ Q, Valid p a b Q → toGroup p a b (pneg p Q) = - toGroup p a b Q) :=
+  ⟨fun _ _ hQ hR => toGroup_padd hc hQ hR, fun _ _ hQ hR h => toGroup_inj hc hQ hR h,
+   fun g => ⟨ofGroup_valid hc g, toGroup_ofGroup hc g⟩, toGroup_inf, fun _ hQ => toGroup_pneg hc hQ⟩
+
+/-- **`Point.__rmul__` is scalar multiplication** (double-and-add, all `k ≥ 0`), and stays on the curve -/
+theorem mul_is_smul (hc : CurveOK p a b) (k : ℕ) {Q : Pt} (hQ : Valid p a b Q) :
+    Valid p a b (pmul p a k Q) ∧ toGroup p a b (pmul p a k Q) = k • toGroup p a b Q :=
+  ⟨pmul_valid hc k hQ, toGroup_pmul hc k hQ⟩
+
+/-- `(j + k)Q = jQ + kQ`, `0·Q = ∞`, `1·Q = Q`, `(k+1)Q = kQ + Q` -/
+theorem mul_add (hc : CurveOK p a b) (j k : ℕ) {Q : Pt} (hQ : Valid p a b Q) :
+    pmul p a (j + k) Q = padd p a (pmul p a j Q) (pmul p a k Q) ∧ pmul p a 0 Q = .inf ∧
+    pmul p a 1 Q = Q ∧ pmul p a (k + 1) Q = padd p a (pmul p a k Q) Q :=
+  ⟨pmul_add hc j k hQ, pmul_zero Q, pmul_one hc hQ, pmul_succ hc k hQ⟩
+
+/-- `(jk)Q = j(kQ)` and `k(Q + R) = kQ + kR` -/
+theorem mul_mul (hc : CurveOK p a b) (j k : ℕ) {Q R : Pt} (hQ : Valid p a b Q) (hR : Valid p a b R) :
+    pmul p a (j * k) Q = pmul p a j (pmul p a k Q) ∧
+    pmul p a k (padd p a Q R) = padd p a (pmul p a k Q) (pmul p a k R) :=
+  ⟨pmul_mul hc j k hQ, pmul_padd hc k hQ hR⟩
+
+/-- `Q + Q = 2Q` -/
+theorem double_eq_two_mul (hc : CurveOK p a b) {Q : Pt} (hQ : Valid p a b Q) :
+    padd p a Q Q = pmul p a 2 Q := (pmul_two hc hQ).symm
+
+/-- a scalar that annihilates the point acts modulo itself -/
+theorem mul_mod_order (hc : CurveOK p a b) (n k : ℕ) {Q : Pt} (hQ : Valid p a b Q)
+    (hn : pmul p a n Q = .inf) : pmul p a (k % n) Q = pmul p a k Q := pmul_mod hc n k hQ hn
+
+/-- the constructor check is the curve equation -/
+theorem on_curve_iff (hc : CurveOK p a b) (x y : ℕ) :
+    Valid p a b (.aff x y) ↔ x < p ∧ y < p ∧ y ^ 2 % p = (x ^ 3 + a * x + b) % p :=
+  valid_aff_iff hc x y
+
+end generic
+
+-- the hypotheses are satisfiable: small curves, incl. the F03b witness curve y² = x³ + x over F₅
+example : CurveOK 5 1 0 ∧ CurveOK 11 0 7 ∧ CurveOK 61 0 7 ∧ ¬ CurveOK 7 0 7 := by decide
+example : Valid 5 1 0 (.aff 2 0) ∧ padd 5 1 (.aff 2 0) (.aff 2 0) = .inf := by decide
+example : Valid 11 0 7 (.aff 2 2) ∧ padd 11 0 (.aff 2 2) (.aff 3 1) = .aff 7 3 ∧
+    pmul 11 0 12 (.aff 2 2) = .inf := by decide +kernel
+
+/-! ## secp256k1 -/
+
+/-- the field modulus and the group order of the code are prime (Pratt certificates), the curve
+    is non-singular, `G` is on it and has order exactly `N` -/
+theorem secp_setup : Nat.Prime P ∧ Nat.Prime N ∧ CurveOK P A B ∧ Valid P A B G ∧ G ≠ .inf ∧
+    pmul P A N G = .inf ∧ addOrderOf (toGroup P A B G) = N :=
+  ⟨prime_secpP, prime_secpN, curveOK_secp, G_valid, G_ne_inf, pmul_N_G, addOrderOf_G⟩
+
+/-- closure, commutativity, associativity of `S256Point.__add__` on all curve points -/
+theorem secp_add_group {Q R S : Pt} (hQ : Valid P A B Q) (hR : Valid P A B R) (hS : Valid P A B S) :
+    Valid P A B (sadd Q R) ∧ sadd Q R = sadd R Q ∧ sadd (sadd Q R) S = sadd Q (sadd R S) ∧
+    sadd .inf Q = Q ∧ sadd Q .inf = Q :=
+  ⟨sadd_valid hQ hR, sadd_comm hQ hR, sadd_assoc hQ hR hS, sadd_inf_left Q, sadd_inf_right Q⟩
+
+/-- `(a + b)G = aG + bG` for all integers (negative, ≥ N, > 2²⁵⁶: the code reduces mod N) -/
+theorem secp_add_hom (a b : ℤ) : smul (a + b) G = sadd (smul a G) (smul b G) :=
+  (smul_add G_tors a b).symm
+
+/-- `a(bG) = (ab)G` for all integers -/
+theorem secp_mul_assoc (a b : ℤ) : smul a (smul b G) = smul (a * b) G := smul_smul G_tors a b
+
+/-- the same two laws for every point annihilated by N (every `Q ∈ ⟨G⟩`) -/
+theorem secp_hom_tors {Q : Pt} (hQ : Tors Q) (a b : ℤ) :
+    smul (a + b) Q = sadd (smul a Q) (smul b Q) ∧ smul a (smul b Q) = smul (a * b) Q ∧
+    Tors (smul a Q) :=
+  ⟨(smul_add hQ a b).symm, smul_smul hQ a b, smul_tors hQ a⟩
+
+theorem inG_tors {Q : Pt} (h : InG Q) : Tors Q := h.tors
+
+/-- `N·Q = ∞` for every `Q ∈ ⟨G⟩`, computed by `Point.__rmul__` without any reduction of the
+    coefficient; `S256Point.__rmul__(N, Q)` is `∞` for every point (it multiplies by `N % N = 0`) -/
+theorem secp_order {Q : Pt} (h : InG Q) : pmul P A N Q = .inf ∧ smul (N : ℤ) Q = .inf :=
+  ⟨pmul_N_of_inG h, smul_N Q⟩
+
+/-- `(k mod N)Q = kQ`: for the code's operator by construction, for true scalar multiplication
+    (no reduction) on every `Q ∈ ⟨G⟩` -/
+theorem secp_mod (k : ℤ) (Q : Pt) : smul (k % (N : ℤ)) Q = smul k Q := smul_emod k Q
+
+theorem secp_mod_nat (k : ℕ) {Q : Pt} (h : InG Q) : pmul P A (k % N) Q = pmul P A k Q :=
+  pmul_mod curveOK_secp N k h.valid h.tors.2
+
+/-- `aG = bG` exactly when `a ≡ b (mod N)`: the order of `G` is exactly `N` -/
+theorem secp_scalar_inj (a b : ℤ) : smul a G = smul b G ↔ a % (N : ℤ) = b % (N : ℤ) :=
+  smul_G_eq_iff a b
+
+/-- `Q + (−Q) = ∞` for every curve point; `−Q = (−1)·Q` on points annihilated by N -/
+theorem secp_add_neg {Q : Pt} (hQ : Valid P A B Q) :
+    sadd Q (pneg P Q) = .inf ∧ (Tors Q → smul (-1) Q = pneg P Q ∧ sadd Q (smul (-1) Q) = .inf) :=
+  ⟨sadd_pneg hQ, fun h => ⟨smul_neg_one h, sadd_smul_neg_one h⟩⟩
+
+/-- `Q + Q = 2Q` for every curve point -/
+theorem secp_double {Q : Pt} (hQ : Valid P A B Q) : sadd Q Q = smul 2 Q := sadd_self hQ
+
+/-- `S256Point + int` is `Q + int·G` -/
+theorem secp_add_int (Q : Pt) (k : ℤ) : saddInt Q k = sadd Q (smul k G) := saddInt_eq Q k
+
+/-- `x(−R) = x(R)` and the parity of y flips, for every curve point `R ≠ ∞` (no curve point has
+    `y = 0`: −7 is not a cube mod P) -/
+theorem secp_neg_xy {Q : Pt} (hQ : Valid P A B Q) (h : Q ≠ .inf) :
+    xonly (pneg P Q) = xonly Q ∧ parity (pneg P Q) + parity Q = 1 :=
+  ⟨xonly_pneg Q, parity_pneg hQ h⟩
+
+theorem secp_no_two_torsion {x y : ℕ} (h : Valid P A B (.aff x y)) : y ≠ 0 ∧ x ≠ 0 :=
+  ⟨valid_y_ne_zero h, valid_x_ne_zero h⟩
+
+/-- `even_point` returns the representative with even y of `±Q` (points annihilated by N) -/
+theorem secp_even_point {Q : Pt} (hQ : Tors Q) :
+    evenPoint Q = evenRep Q ∧ parity (evenPoint Q) = 0 ∧ xonly (evenPoint Q) = xonly Q ∧
+    (evenPoint Q = Q ∨ evenPoint Q = pneg P Q) := by
+  refine ⟨evenPoint_eq_evenRep hQ, parity_evenPoint hQ, xonly_evenPoint hQ, ?_⟩
+  rw [evenPoint_eq_evenRep hQ, evenRep_eq_ite hQ.1]
+  split
+  · right; rfl
+  · left; rfl
+
+example : InG G := ⟨1, (smul_one G_valid).symm⟩
+example : Tors G ∧ Tors (smul (-5) G) ∧ Tors (sadd G (smul 7 G)) :=
+  ⟨G_tors, smul_tors G_tors _, sadd_tors G_tors (smul_tors G_tors _)⟩
+
+/-! ## encodings -/
+
+/-- `S256Field.sqrt`: what it returns is a root; it finds a root of every square (P ≡ 3 mod 4);
+    it raises on non-squares -/
+theorem sqrt_correct :
+    (∀ c s, fsqrt c = some s → s < P ∧ s * s % P = c) ∧
+    (∀ y, y < P → ∃ s, fsqrt (y * y % P) = some s ∧ (s = y ∨ (y ≠ 0 ∧ s = P - y))) ∧
+    (∀ c, (∀ y, y < P → y * y % P ≠ c) → fsqrt c = none) :=
+  ⟨fun _ _ h => fsqrt_some h, fun _ hy => fsqrt_sq hy, fun _ h => fsqrt_none_of_nonsquare h⟩
+
+/-- **SEC round trip**: `parse(sec(Q, c)) = Q` for every curve point and both formats; lengths 33 / 65 -/
+theorem sec_roundtrip {Q : Pt} (hQ : Valid P A B Q) (c : Bool) {s : Bytes} (h : sec Q c = some s) :
+    parseSec s = some Q ∧ parsePoint s = some Q ∧ s.length = (if c then 33 else 65) :=
+  ⟨parseSec_sec hQ c h, parsePoint_sec hQ c h, sec_length h⟩
+
+/-- `sec` is defined on every affine point -/
+theorem sec_defined (x y : ℕ) (c : Bool) : ∃ s, sec (.aff x y) c = some s := by
+  cases c
+  · exact ⟨_, sec_uncompressed x y⟩
+  · exact ⟨_, sec_compressed x y⟩
+
+/-- **x-only round trip**: `parse(xonly(Q))` is the even-y representative of `±Q` for every curve
+    point `Q ≠ ∞`; it is `even_point(Q)` for `Q ∈ ⟨G⟩` -/
+theorem xonly_roundtrip {Q : Pt} (hQ : Valid P A B Q) (h0 : Q ≠ .inf) :
+    parseXonly (xonly Q) = some (evenRep Q) ∧ parsePoint (xonly Q) = some (evenRep Q) ∧
+    (xonly Q).length = 32 ∧ (Tors Q → parseXonly (xonly Q) = some (evenPoint Q)) :=
+  ⟨parseXonly_xonly hQ h0, parsePoint_xonly hQ h0, xonly_length Q,
+   fun h => parseXonly_xonly_tors h h0⟩
+
+/-- an x-only key determines the point up to sign -/
+theorem xonly_determines {Q R : Pt} (hQ : Valid P A B Q) (hR : Valid P A B R) (hQ0 : Q ≠ .inf)
+    (hR0 : R ≠ .inf) (h : xonly Q = xonly R) : Q = R ∨ Q = pneg P R := xonly_inj hQ hR hQ0 hR0 h
+
+/-- **soundness of the parsers**: whatever `parse` / `parse_sec` / `parse_xonly` accept is a curve
+    point with coordinates `< P` (or, for 32 zero bytes, the point at infinity) -/
+theorem parse_sound {b : Bytes} {Q : Pt} :
+    (parsePoint b = some Q → Valid P A B Q) ∧ (parseSec b = some Q → Valid P A B Q) ∧
+    (parseXonly b = some Q → Valid P A B Q) :=
+  ⟨parsePoint_valid, parseSec_valid, parseXonly_valid⟩
+
+theorem parse_sound_coords {b : Bytes} {x y : ℕ} (h : parsePoint b = some (.aff x y)) :
+    x < P ∧ y < P ∧ y ^ 2 % P = (x ^ 3 + 7) % P := valid_aff_iff_mod.mp (parsePoint_valid h)
+
+/-- canonicity: a string accepted by `parse_sec` is exactly the SEC encoding of the result, so a
+    byte string that is not the encoding of a curve point is rejected -/
+theorem parse_sec_canonical {b : Bytes} {Q : Pt} (h : parseSec b = some Q) :
+    Valid P A B Q ∧ ∃ c, sec Q c = some b := ⟨parseSec_valid h, sec_of_parseSec h⟩
+
+/-- `parse_xonly` returns the point with the given x and even y -/
+theorem parse_xonly_canonical {b : Bytes} {x y : ℕ} (h : parseXonly b = some (.aff x y)) :
+    x = beToNat b ∧ y % 2 = 0 ∧ Valid P A B (.aff x y) :=
+  ⟨(parseXonly_spec h).1, (parseXonly_spec h).2, parseXonly_valid h⟩
+
+/-- O03d: an all-zero x-only key parses as the point at infinity -/
+theorem parse_xonly_zero (b : Bytes) (h : beToNat b = 0) : parseXonly b = some .inf :=
+  parseXonly_zero b h
+
+/-- a compressed or x-only key whose x is `≥ P` is rejected -/
+theorem parse_rejects_x_ge_p (pre : UInt8) (rest : Bytes) (hx : P ≤ beToNat rest) :
+    (pre ≠ 4 → parseSec (pre :: rest) = none) ∧ parseXonly rest = none ∧
+    (rest.length = 32 → parsePoint (pre :: rest) = none ∧ parsePoint rest = none) := by
+  refine ⟨fun h4 => parseSec_x_ge_p pre rest h4 hx, parseXonly_x_ge_p rest hx, fun hl => ⟨?_, ?_⟩⟩
+  · unfold parsePoint
+    rw [if_neg (by simp; omega), if_pos (Or.inl (by simp; omega))]
+    by_cases h4 : pre = 4
+    · exact parseSec_bad_length pre rest (Or.inl ⟨h4, by omega⟩)
+    · exact parseSec_x_ge_p pre rest h4 hx
+  · unfold parsePoint
+    rw [if_pos hl]; exact parseXonly_x_ge_p rest hx
+
+/-- a 33-byte or 32-byte string whose `x³ + 7` is not a square modulo P is rejected -/
+theorem parse_rejects_nonresidue (pre : UInt8) (rest : Bytes) (hl : rest.length = 32)
+    (hn : ∀ y, y < P → y * y % P ≠ (beToNat rest ^ 3 + 7) % P) :
+    parsePoint (pre :: rest) = none ∧ parseSec (pre :: rest) = none ∧
+    (beToNat rest ≠ 0 → parsePoint rest = none) := by
+  have hs : parseSec (pre :: rest) = none := by
+    by_cases h4 : pre = 4
+    · exact parseSec_bad_length pre rest (Or.inl ⟨h4, by omega⟩)
+    · exact parseSec_nonresidue pre rest h4 hn
+  refine ⟨?_, hs, fun h0 => ?_⟩
+  · unfold parsePoint
+    rw [if_neg (by simp; omega), if_pos (Or.inl (by simp; omega))]; exact hs
+  · unfold parsePoint
+    rw [if_pos hl]; exact parseXonly_nonresidue rest h0 hn
+
+/-- Euler's criterion makes the hypothesis of `parse_rejects_nonresidue` a computation -/
+theorem nonresidue_test {c : ℕ} (h : powmod c ((P - 1) / 2) P = P - 1) :
+    ∀ y, y < P → y * y % P ≠ c % P := nonsquare_of_euler h
+
+/-- **prefix / length discipline** (F03a, repaired): only 02/03 with 33 bytes and 04 with 65 bytes
+    reach the curve check; `parse` accepts only lengths 32, 33, 65; the empty string is refused -/
+theorem parse_prefix_length (pre : UInt8) (rest b : Bytes) :
+    (pre ≠ 2 → pre ≠ 3 → pre ≠ 4 → parseSec (pre :: rest) = none) ∧
+    (pre = 4 → rest.length ≠ 64 → parseSec (pre :: rest) = none) ∧
+    (pre ≠ 4 → rest.length ≠ 32 → parseSec (pre :: rest) = none) ∧
+    parseSec [] = none ∧
+    (b.length ≠ 32 → b.length ≠ 33 → b.length ≠ 65 → parsePoint b = none) :=
+  ⟨parseSec_bad_prefix pre rest, fun h4 hl => parseSec_bad_length pre rest (Or.inl ⟨h4, hl⟩),
+   fun h4 hl => parseSec_bad_length pre rest (Or.inr ⟨h4, hl⟩), parseSec_nil,
+   fun h1 h2 h3 => parsePoint_bad_length b ⟨h1, h2, h3⟩⟩
+
+/-- the constructor `S256Point(x, y)` accepts exactly the curve points with coordinates `< P` -/
+theorem constructor_check (x y : ℕ) :
+    (Valid P A B (.aff x y) → mkPoint x y = some (.aff x y)) ∧
+    (¬ Valid P A B (.aff x y) → mkPoint x y = none) :=
+  ⟨mkPoint_of_valid, mkPoint_none⟩
+
+-- non-vacuity: G round-trips, the F03a witnesses are refused, x = 5 is a non-residue abscissa
+example : ∃ s, sec G true = some s ∧ parsePoint s = some G :=
+  ⟨_, rfl, parsePoint_sec G_valid true rfl⟩
+example : parseXonly (xonly G) = some (evenPoint G) := parseXonly_xonly_tors G_tors G_ne_inf
+example (rest : Bytes) : parseSec (5 :: rest) = none :=
+  parseSec_bad_prefix 5 rest (by decide) (by decide) (by decide)
+example : parseSec (2 :: (natToBE' 32 Gen.secpGx ++ natToBE' 32 Gen.secpGy)) = none :=
+  parseSec_bad_length 2 _ (Or.inr ⟨by decide, by simp⟩)
+example : ∀ y, y < P → y * y % P ≠ (5 ^ 3 + 7) % P := nonsquare_of_euler (by decide +kernel)
 
 end Buidl.Props.C03
